@@ -134,11 +134,42 @@ func specModesOK(env *Pass1) bool {
 // mode, and objects it allocates itself. The frame is checked against the inferred
 // write sets of all handlers registered in opcodeEvalFns.
 //@ func TraverseAST
-//@ props C10 C14 C17 C05
-//@ option trusted
+//@ props C10 C14 C17 C05 C07
+//@ option trusted-frame no-panic-obligations
 //@ requires env != nil && env.Client != nil && env.SymTable != nil && specModesOK(env)
 //@ loop 0 invariant specModesOK(env)
 //@ loop 1 invariant specModesOK(env)
 //@ loop 2 invariant specModesOK(env)
-//@ ensures[mode] specModesOK(env)
+//@ ensures[T.mode] specModesOK(env)
+//@ ensures[nohandler.opcode@C07] specIsOpcodeStmt(node) && !specHasHandler(specOpcodeOf(node)) ==> vcLoggedError()
+//@ ensures[nohandler.mnemonic@C07] specIsMnemonicStmt(node) && specNoOperands(node) && !specHasHandler(specMnemonicOf(node)) ==> vcLoggedError()
 //@ assigns Pass1.LOC, Pass1.BitMode, Pass1.OutputFormat, Pass1.SourceFileName, Pass1.CurrentSection, Pass1.MacroMap, Pass1.NextImmJumpID, Pass1.DollarPosition, Pass1.GlobalSymbolList, Pass1.ExternSymbolList, ocodeClient.Ocodes, CodeGenContext.BitMode, map[string]int32, map[string]ast.Exp, []string
+
+
+// C07: a statement whose mnemonic has no pass-1 handler must leave an error-level diagnostic.
+func vcLoggedError() bool { return false }
+
+func specIsOpcodeStmt(n ast.Node) bool { _, ok := n.(*ast.OpcodeStmt); return ok }
+
+func specOpcodeOf(n ast.Node) string {
+	if s, ok := n.(*ast.OpcodeStmt); ok {
+		return s.Opcode.Value
+	}
+	return ""
+}
+
+func specIsMnemonicStmt(n ast.Node) bool { _, ok := n.(*ast.MnemonicStmt); return ok }
+
+func specMnemonicOf(n ast.Node) string {
+	if s, ok := n.(*ast.MnemonicStmt); ok {
+		return s.Opcode.Value
+	}
+	return ""
+}
+
+func specNoOperands(n ast.Node) bool {
+	s, ok := n.(*ast.MnemonicStmt)
+	return ok && len(s.Operands) == 0
+}
+
+func specHasHandler(op string) bool { _, ok := opcodeEvalFns[op]; return ok }
